@@ -1,6 +1,7 @@
 """C05 -- every submitted job resolves exactly once, with its own outcome."""
-from checks import poolcommon
+from checks import poolcommon, poolreal
 
 
 def main(ctx):
     poolcommon.run(ctx, 'C05')
+    poolreal.run(ctx, 'C05')
